@@ -71,6 +71,12 @@ def expected_aggregates(net, nodes, m):
                 dead_head_distance='inf' if ag['dead_head_distance'] is TS.INF else mval(m, ag['dead_head_distance']),
                 costs=mval(m, ag['costs']), visits_maintenance=ag['visits_maintenance'])
 def names(net, nodes): return [net.info[n]['id'] for n in nodes]
+def symbolic_aggregates(t, m):
+    """the executor's own values of the cached figures under a model"""
+    def dv(d): return 'inf' if d.variant == 1 else mval(m, d.fields[0].e)
+    u = F(t, 'Tour', 'useful_duration')
+    return dict(useful_duration='inf' if u.variant == 1 else mval(m, u.fields[0].fields[0].e), service_distance=dv(F(t, 'Tour', 'service_distance')),
+                dead_head_distance=dv(F(t, 'Tour', 'dead_head_distance')), costs=mval(m, F(t, 'Tour', 'costs').e), visits_maintenance=mval(m, F(t, 'Tour', 'visits_maintenance').e))
 
 # ------------------------------------------------------------------ construction inside a path
 def build_tour(ex, net, T, dummy):
@@ -155,6 +161,10 @@ def job_insert(name, tier, tour, path, props):
             for clause, f in aggregates_ok(ex, net, nt, got):
                 J.prove(pc, f, 'insert_path: ' + clause, lambda m, clause=clause: mk(m, what='after insert_path: ' + clause + ' violated', clause_sig=' ' + clause.split(' = ')[0]))
             if any(TS.nowhere(net, x) for x in T) and not any(TS.nowhere(net, x) for x in got): J.covers.add('insert: overflow depot replaced by a real depot')
+        def wit(m, net=net, T=T, P=P, nt=nt, got=got, rem=rem):
+            return dict(kind='insert', scenario=scenario(net, m, T, dummy, P, [dict(op='tour_insert_path', tour='T', path='P')]),
+                        symbolic=dict(nodes=names(net, got), removed=names(net, rem) if rem else None, aggregates=symbolic_aggregates(nt, m)))
+        J.witness(pc, wit)
         J.sample('%s: insert_path -> nodes %s removed %s (symbolic times/locations/matrix)' % (sig0, got, rem))
     return J.result()
 
@@ -203,6 +213,14 @@ def job_remove(name, tier, tour, props):
                     nt = res.fields[0].fields[0].fields[0]; got = tour_nodes(ex, nt)
                     for clause, f in aggregates_ok(ex, net, nt, got):
                         J.prove(pc, f, 'remove: ' + clause, lambda m, clause=clause: mk(m, what='after remove: ' + clause + ' violated', clause_sig=' ' + clause.split(' = ')[0]))
+                def wit(m, net=net, T=T, res=res):
+                    sym = dict(refused=res.variant == 1)
+                    if res.variant == 0:
+                        ot, pth = res.fields[0].fields
+                        sym.update(nodes=names(net, tour_nodes(ex, ot.fields[0])) if ot.variant == 1 else None, removed=names(net, path_nodes(ex, pth)),
+                                   aggregates=symbolic_aggregates(ot.fields[0], m) if ot.variant == 1 else None)
+                    return dict(kind='remove', scenario=scenario(net, m, T, dummy, None, [dict(op='tour_remove', tour='T', start=net.info[T[i]]['id'], end=net.info[T[j]]['id'])]), symbolic=sym)
+                J.witness(pc, wit)
                 J.sample('%s: remove/sub_path/check_removable of positions [%d..%d]' % (sig0, i, j))
     return J.result()
 
@@ -305,6 +323,23 @@ def differs(exp, obs):
         if last['ok']['nodes'] != exp['nodes']: return True, 'nodes differ'
         return agg_differs(exp['aggregates'], last['ok'])
     return False, 'unknown kind'
+
+def validate(w):
+    """translator validation: native observation == the executor's own result under the same assignment"""
+    obs = replay.run(w['scenario'], 'dev'); sym = w['symbolic']; last = obs[-1]
+    if 'err' in obs[0] or (len(obs) > 2 and isinstance(obs[1], dict) and 'err' in obs[1]): return False, 'native constructor refused what the symbolic constructor accepted: %s' % str(obs[:2])[:200]
+    if w['kind'] == 'insert':
+        if last.get('tour', {}).get('nodes') != sym['nodes'] or last.get('removed') != sym['removed']: return False, 'insert: native %s / symbolic %s' % (str(last)[:200], sym)
+        bad, why = agg_differs(sym['aggregates'], last['tour']); return (not bad), why
+    if w['kind'] == 'remove':
+        if ('err' in last) != sym['refused']: return False, 'remove refusal: native %s symbolic %s' % (last, sym)
+        if 'ok' in last:
+            t = last['ok']['tour']
+            if (t['nodes'] if t else None) != sym['nodes'] or last['ok']['removed'] != sym['removed']: return False, 'remove: native %s symbolic %s' % (str(last)[:200], sym)
+            if t and sym['aggregates']:
+                bad, why = agg_differs(sym['aggregates'], t); return (not bad), why
+        return True, ''
+    return True, ''
 
 # ------------------------------------------------------------------ job lists
 def tour_shapes(tier):
